@@ -10,6 +10,7 @@ import MpsVerif.Drv.Pipeline
 import MpsVerif.Drv.Tee
 import MpsVerif.Drv.Refcount
 import MpsVerif.Drv.ProxyCall
+import MpsVerif.Drv.Servlet
 
 def main (args : List String) : IO UInt32 := do
   match args with
@@ -27,4 +28,5 @@ def main (args : List String) : IO UInt32 := do
   | ["tee-legacy"] => Tee.Drv.mainLegacy; return 0
   | ["refcount"] => Refcount.Drv.main; return 0
   | ["proxycall"] => ProxyCall.Drv.main; return 0
+  | ["servlet"] => Servlet.Drv.main; return 0
   | _ => IO.eprintln s!"usage: drv <model>   (models: fifo)"; return 2
